@@ -30,6 +30,14 @@
 (*   RemoveCancels remove_request cancels the request's timer              *)
 (*   SharedGen     the search commands draw tickets from the search        *)
 (*                 manager's generator                                     *)
+(*   StartBeforeEmit  the request's Timer is started before                *)
+(*                 SearchRequestSentEvent is delivered (TRUE = the code as *)
+(*                 found; FALSE = started after the awaited emit, so a     *)
+(*                 removal during the delivery cancels a timer that is not *)
+(*                 running yet and the timer is armed for a gone request)  *)
+(*   CmdFreshTicket  a search command draws a new ticket every time it is  *)
+(*                 executed (TRUE = the code as found; FALSE = an instance *)
+(*                 executed again re-uses its ticket)                      *)
 (*   EmitBeforeClose  _on_peer_search_reply looks the request up and       *)
 (*                 reports the result in one stretch, before it awaits     *)
 (*                 connection.disconnect (TRUE = the code as found; FALSE  *)
@@ -50,7 +58,8 @@ CONSTANTS
   EnvOps,        \* which stimuli the environment uses in this configuration
   MaxOps, MaxTime, MaxTasks, MaxTicket,
   MaxHeld,       \* replies that arrive on a connection whose close takes a while (in flight at most)
-  UnsetGuard, RemoveCancels, SharedGen, EmitBeforeClose
+  MaxSHeld,      \* searches whose SearchRequestSentEvent is delivered to a listener that suspends
+  UnsetGuard, RemoveCancels, SharedGen, EmitBeforeClose, StartBeforeEmit, CmdFreshTicket
 
 VARIABLES
   now,
@@ -76,6 +85,7 @@ VARIABLES
   ready,     \* the loop's ready queue: sequence of [k, t]
   wl,        \* the wishlist BackgroundTask [st, due]
   hc,        \* per held reply: the handler coroutine [pc, q] (q: the request object it looked up)
+  sc,        \* per search whose sent event meets a suspending listener: the coroutine [pc, e]
   nops,      \* stimuli used
   \* ---- history (what the last step did)
   op,        \* the stimulus of the last step [k, e, a]; k = "none" for an internal step
@@ -86,13 +96,13 @@ VARIABLES
 
 abst    == <<kind, status, ticket, armed, adl, hs>>
 conf    == <<rt, wt>>
-micro   == <<requests, gen, tmo, handle, task, ready, wl, hc, nops>>
+micro   == <<requests, gen, tmo, handle, task, ready, wl, hc, sc, nops>>
 hist    == <<op, out, ran, errs, q>>
 vars    == <<now, rt, wt, srvIval, kind, status, ticket, armed, adl, hs,
-             requests, gen, tmo, handle, task, ready, wl, hc, nops, op, out, ran, errs, q>>
+             requests, gen, tmo, handle, task, ready, wl, hc, sc, nops, op, out, ran, errs, q>>
 \* history variables carry nothing the next step depends on
 view    == <<now, rt, wt, srvIval, kind, status, ticket, armed, adl, hs,
-             requests, gen, tmo, handle, task, ready, wl, hc, nops, errs>>
+             requests, gen, tmo, handle, task, ready, wl, hc, sc, nops, errs>>
 
 WishTimeouts == IF WishServer THEN WishFixed \cup {-1} ELSE WishFixed
 
@@ -202,17 +212,21 @@ Get(R, tk) == (CHOOSE p \in R : p[1] = tk)[2]
 FreeIn(C) == {e \in Ents : C.abs.kind[e] = "none"}
 FreshIn(C) == CHOOSE e \in FreeIn(C) : \A x \in FreeIn(C) : e <= x
 
-\* manager.py:122-134 / 283-303 / commands.py:554-614: draw a ticket from generator g, register
-\* the request (overwriting whatever the dict holds under that ticket), start a Timer when T > 0
-CreateIn(C, k, g, T, sent) ==
-  LET e == FreshIn(C)
-      tk == C.gen[g] + 1 IN
+\* manager.py:122-134 / 283-303 / commands.py:554-614: register a request under ticket tk
+\* (overwriting whatever the dict holds under that ticket); when T > 0 a Timer is attached, and
+\* started here if `start`
+CreateTk(C, k, tk, T, sent, start) ==
+  LET e == FreshIn(C) IN
   [abs |-> A_Create(C.abs, now, e, k, tk, IF k = "cmd" THEN T ELSE ExpTimeout(k)),
    requests |-> Put(C.requests, tk, e),
-   gen |-> [C.gen EXCEPT ![g] = tk],
+   gen |-> C.gen,
    tmo |-> [C.tmo EXCEPT ![e] = T],
-   m |-> IF T > 0 THEN StartIn(C.m, e) ELSE C.m,
+   m |-> IF T > 0 /\ start THEN StartIn(C.m, e) ELSE C.m,
    out |-> IF sent THEN Append(C.out, Ev("sent", e)) ELSE C.out]
+
+\* ... under the next ticket of generator g
+CreateIn(C, k, g, T, sent) ==
+  [CreateTk(C, k, C.gen[g] + 1, T, sent, TRUE) EXCEPT !.gen = [C.gen EXCEPT ![g] = C.gen[g] + 1]]
 
 CanCreate(C, T) == FreeIn(C) # {} /\ (T > 0 => Len(C.m.t) < MaxTasks)
 
@@ -234,7 +248,7 @@ Init ==
   /\ ticket = [e \in Ents |-> 0]
   /\ armed = [e \in Ents |-> FALSE]
   /\ adl = [e \in Ents |-> 0]
-  /\ hs = <<>> /\ hc = <<>>
+  /\ hs = <<>> /\ hc = <<>> /\ sc = <<>>
   /\ requests = {}
   /\ gen = [mgr |-> 1, cli |-> 1]        \* utils.ticket_generator(initial=1): both start at 1
   /\ tmo = [e \in Ents |-> 0]
@@ -251,7 +265,7 @@ Init ==
 
 EnvTurn(o) == ready # <<>> /\ Head(ready) = ENV /\ nops < MaxOps /\ o \in EnvOps
 Stim(o) == /\ op' = o /\ ran' = 0 /\ errs' = errs /\ nops' = nops + 1 /\ q' = (ready' = <<ENV>>)
-           /\ UNCHANGED <<now, rt, wt, hc>>
+           /\ UNCHANGED <<now, rt, wt, hc, sc>>
 
 \* SearchManager.search / search_room / search_user
 Search ==
@@ -300,7 +314,7 @@ Reply(tk) ==
   /\ ready # <<>> /\ Head(ready) = ENV /\ "reply" \in EnvOps
   /\ out' = IF HasKey(requests, tk) THEN <<Ev("result", Get(requests, tk))>> ELSE <<>>
   /\ op' = Op("reply", 0, tk) /\ ran' = 0 /\ q' = q
-  /\ UNCHANGED <<now, rt, wt, srvIval, abst, requests, gen, tmo, handle, task, ready, wl, hc, nops, errs>>
+  /\ UNCHANGED <<now, rt, wt, srvIval, abst, requests, gen, tmo, handle, task, ready, wl, hc, sc, nops, errs>>
 
 \* A PeerSearchReply arrives on a connection whose close takes a while: the handler task
 \* (the connection's reader dispatching the message) is created now, runs up to
@@ -312,7 +326,7 @@ ReplyHeld(tk) ==
   /\ ready' = Append(ready, H("rin", Len(hs) + 1))
   /\ out' = <<>>
   /\ op' = Op("rheld", Len(hs) + 1, tk) /\ ran' = 0 /\ errs' = errs /\ nops' = nops + 1 /\ q' = FALSE
-  /\ UNCHANGED <<now, rt, wt, srvIval, requests, gen, tmo, handle, task, wl>>
+  /\ UNCHANGED <<now, rt, wt, srvIval, requests, gen, tmo, handle, task, wl, sc>>
 
 \* the close of that connection completes: the handler is woken up
 ReplyRelease(h) ==
@@ -322,7 +336,51 @@ ReplyRelease(h) ==
   /\ ready' = Append(ready, H("rres", h))
   /\ out' = <<>>
   /\ op' = Op("rrelease", h, 0) /\ ran' = 0 /\ errs' = errs /\ q' = FALSE
-  /\ UNCHANGED <<now, rt, wt, srvIval, abst, requests, gen, tmo, handle, task, wl, nops>>
+  /\ UNCHANGED <<now, rt, wt, srvIval, abst, requests, gen, tmo, handle, task, wl, sc, nops>>
+
+\* ---- listeners of SearchRequestSentEvent that interfere, and commands executed again
+
+\* search() while a listener of SearchRequestSentEvent removes the request it is told about:
+\* register, (start the timer,) emit -> remove_request pops it and cancels its timer(, start the timer)
+SearchRm ==
+  /\ EnvTurn("searchrm") /\ CanCreate(Cur, rt)
+  /\ LET e == FreshIn(Cur)
+         C == CreateIn(Cur, "mgr", "mgr", rt, TRUE) IN
+       /\ SetAbs(A_Remove(C.abs, e))
+       /\ requests' = Del(C.requests, C.gen.mgr)
+       /\ gen' = C.gen /\ tmo' = C.tmo /\ out' = C.out
+       /\ SetMicro(IF StartBeforeEmit /\ RemoveCancels THEN CancelIn(C.m, e) ELSE C.m)
+       /\ Stim(Op("searchrm", e, C.gen.mgr))
+  /\ UNCHANGED <<srvIval, wl>>
+
+\* search() in a task of its own while a coroutine listener of the sent event suspends
+SearchHeld ==
+  /\ EnvTurn("sheld") /\ Len(sc) < MaxSHeld
+  /\ sc' = Append(sc, [pc |-> "new", e |-> 0])
+  /\ ready' = Append(ready, H("sin", Len(sc) + 1))
+  /\ out' = <<>>
+  /\ op' = Op("sheld", Len(sc) + 1, 0) /\ ran' = 0 /\ errs' = errs /\ nops' = nops + 1 /\ q' = FALSE
+  /\ UNCHANGED <<now, rt, wt, srvIval, abst, requests, gen, tmo, handle, task, wl, hc>>
+
+\* the listener returns: the emit, hence search(), goes on
+SentRelease(k) ==
+  /\ ready # <<>> /\ Head(ready) = ENV /\ "sheld" \in EnvOps
+  /\ k <= Len(sc) /\ sc[k].pc = "emitting"
+  /\ sc' = [sc EXCEPT ![k].pc = "released"]
+  /\ ready' = Append(ready, H("sres", k))
+  /\ out' = <<>>
+  /\ op' = Op("srelease", k, 0) /\ ran' = 0 /\ errs' = errs /\ q' = FALSE
+  /\ UNCHANGED <<now, rt, wt, srvIval, abst, requests, gen, tmo, handle, task, wl, hc, nops>>
+
+\* client.execute(cmd) with the command object that created request e, once more
+CmdAgain(e) ==
+  /\ EnvTurn("recmd") /\ kind[e] = "cmd" /\ CanCreate(Cur, 0)
+  /\ LET g == IF SharedGen THEN "mgr" ELSE "cli"
+         C == IF CmdFreshTicket THEN CreateIn(Cur, "cmd", g, 0, FALSE)
+                                ELSE CreateTk(Cur, "cmd", ticket[e], 0, FALSE, FALSE) IN
+       /\ SetCreated(C)
+       /\ Stim(Op("recmd", e, C.abs.ticket[FreshIn(Cur)]))
+  /\ UNCHANGED <<srvIval, wl>>
 
 \* ---- a Timer driven directly
 TNew(d) ==
@@ -367,7 +425,7 @@ Yield ==
   /\ ready # <<>> /\ Head(ready) = ENV /\ Len(ready) > 1
   /\ ready' = Append(Tail(ready), ENV)
   /\ op' = Op("yield", 0, 0) /\ out' = <<>> /\ ran' = 0 /\ q' = FALSE
-  /\ UNCHANGED <<now, rt, wt, srvIval, abst, requests, gen, tmo, handle, task, wl, hc, nops, errs>>
+  /\ UNCHANGED <<now, rt, wt, srvIval, abst, requests, gen, tmo, handle, task, wl, hc, sc, nops, errs>>
 
 \* Nothing else is ready: the clock moves one tick; every timer that is now due is appended to
 \* the ready queue behind the driver (BaseEventLoop._run_once), in heap order (any order here).
@@ -377,18 +435,20 @@ Orderings(S) == {s \in [1..Cardinality(S) -> S] : \A i, j \in 1..Cardinality(S) 
 
 Advance ==
   /\ ready = <<ENV>> /\ now < MaxTime
+  /\ \A k \in 1..Len(sc) : sc[k].pc # "emitting"     \* (which instant the timeout counts from is
+                                                     \* not pinned down for such a delivery)
   /\ \E order \in Orderings(DueSet(now + 1)) :
        /\ ready' = <<ENV>> \o order
        /\ q' = (order = <<>>)
   /\ now' = now + 1
   /\ op' = Op("advance", 0, 0) /\ out' = <<>> /\ ran' = 0
-  /\ UNCHANGED <<rt, wt, srvIval, abst, requests, gen, tmo, handle, task, wl, hc, nops, errs>>
+  /\ UNCHANGED <<rt, wt, srvIval, abst, requests, gen, tmo, handle, task, wl, hc, sc, nops, errs>>
 
 ----------------------------------------------------------------------------
 \* Internal steps: the loop runs the handle at the head of the ready queue.
 
 InternalH == op' = Op("none", 0, 0) /\ q' = (ready' = <<ENV>>) /\ UNCHANGED <<now, rt, wt, srvIval, nops, gen, tmo>>
-Internal == InternalH /\ UNCHANGED hc
+Internal == InternalH /\ UNCHANGED <<hc, sc>>
 
 \* first step of Timer.runner: asyncio.sleep(self.timeout) registers the deadline
 RunFirst(t) ==
@@ -457,7 +517,7 @@ RunReplyArrive(h) ==
               /\ hc' = [hc EXCEPT ![h] = [pc |-> "closing", q |-> IF present THEN Get(requests, tk) ELSE 0]]
   /\ ready' = Tail(ready)
   /\ ran' = 0 /\ errs' = errs
-  /\ InternalH /\ UNCHANGED <<requests, handle, task, wl>>
+  /\ InternalH /\ UNCHANGED <<requests, handle, task, wl, sc>>
 
 \* ... and from there to its end
 RunReplyResume(h) ==
@@ -468,7 +528,32 @@ RunReplyResume(h) ==
   /\ hc' = [hc EXCEPT ![h].pc = "done"]
   /\ ready' = Tail(ready)
   /\ ran' = 0 /\ errs' = errs
-  /\ InternalH /\ UNCHANGED <<requests, handle, task, wl>>
+  /\ InternalH /\ UNCHANGED <<requests, handle, task, wl, sc>>
+
+\* search() up to the suspension of the listener inside `await emit(SearchRequestSentEvent)`
+RunSearchArrive(k) ==
+  /\ k <= Len(sc) /\ ready # <<>> /\ Head(ready) = H("sin", k) /\ sc[k].pc = "new"
+  /\ LET C0 == [Cur EXCEPT !.m.r = Tail(ready)] IN
+       IF CanCreate(C0, rt)
+         THEN LET tk == gen.mgr + 1
+                  C == [CreateTk(C0, "mgr", tk, rt, TRUE, StartBeforeEmit) EXCEPT !.gen = [gen EXCEPT !.mgr = tk]] IN
+              /\ SetCreated(C)
+              /\ sc' = [sc EXCEPT ![k] = [pc |-> "emitting", e |-> FreshIn(C0)]]
+         ELSE /\ UNCHANGED <<abst, requests, gen, tmo, handle, task>> /\ out' = <<>>
+              /\ ready' = Tail(ready)
+              /\ sc' = [sc EXCEPT ![k].pc = "done"]
+  /\ ran' = 0 /\ errs' = errs
+  /\ op' = Op("none", 0, 0) /\ q' = (ready' = <<ENV>>) /\ UNCHANGED <<now, rt, wt, srvIval, nops, wl, hc>>
+
+\* ... and from there to its end
+RunSearchResume(k) ==
+  /\ k <= Len(sc) /\ ready # <<>> /\ Head(ready) = H("sres", k) /\ sc[k].pc = "released"
+  /\ IF StartBeforeEmit \/ tmo[sc[k].e] = 0 \/ Len(task) >= MaxTasks
+       THEN handle' = handle /\ task' = task /\ ready' = Tail(ready)
+       ELSE SetMicro(StartIn([Micro EXCEPT !.r = Tail(ready)], sc[k].e))
+  /\ sc' = [sc EXCEPT ![k].pc = "done"]
+  /\ out' = <<>> /\ ran' = 0 /\ errs' = errs
+  /\ InternalH /\ UNCHANGED <<abst, requests, wl, hc>>
 
 \* the wishlist BackgroundTask runs _wishlist_job (manager.py:270-303), then sleeps the interval
 RunWishlist ==
@@ -480,7 +565,7 @@ RunWishlist ==
        /\ gen' = C.gen /\ tmo' = C.tmo
   /\ wl' = [st |-> "sleep", due |-> now + srvIval]
   /\ ran' = 0 /\ errs' = errs
-  /\ op' = Op("none", 0, 0) /\ q' = (ready' = <<ENV>>) /\ UNCHANGED <<now, rt, wt, srvIval, nops, hc>>
+  /\ op' = Op("none", 0, 0) /\ q' = (ready' = <<ENV>>) /\ UNCHANGED <<now, rt, wt, srvIval, nops, hc, sc>>
 
 RunWlDue ==
   /\ ready # <<>> /\ Head(ready) = H("wldue", 0)
@@ -498,6 +583,11 @@ Next ==
   \/ \E h \in 1..MaxHeld : ReplyRelease(h)
   \/ \E h \in 1..MaxHeld : RunReplyArrive(h)
   \/ \E h \in 1..MaxHeld : RunReplyResume(h)
+  \/ SearchRm \/ SearchHeld
+  \/ \E k \in 1..MaxSHeld : SentRelease(k)
+  \/ \E k \in 1..MaxSHeld : RunSearchArrive(k)
+  \/ \E k \in 1..MaxSHeld : RunSearchResume(k)
+  \/ \E e \in Ents : CmdAgain(e)
   \/ \E d \in Delays : TNew(d)
   \/ \E e \in Ents : TStart(e)
   \/ \E e \in Ents : TCancel(e)
@@ -521,7 +611,7 @@ Spec == Init /\ [][Next]_vars
 TypeOK ==
   /\ \A e \in Ents : kind[e] \in {"none", "mgr", "cmd", "wish", "bare"}
                      /\ status[e] \in {"unused", "live", "manual", "expired"}
-  /\ \A i \in 1..Len(ready) : ready[i].k \in {"env", "step", "due", "cb", "wl", "wldue", "rin", "rres"}
+  /\ \A i \in 1..Len(ready) : ready[i].k \in {"env", "step", "due", "cb", "wl", "wldue", "rin", "rres", "sin", "sres"}
   /\ Len(hs) = Len(hc)
   /\ \A t \in 1..Len(task) : task[t].st \in {"new", "sleep", "woken", "done"}
 
